@@ -285,7 +285,7 @@ def _stream_proto(ck, tier, proto):
     cases = [p for p in res.prints if isinstance(p, dict) and 'cuts' in p]
     common.require(len(cases) > 100, 'SshStream emitted only %d cases' % len(cases))
     ck.log('SshStream (SSH-%d framing): %d (packet sequence, segmentation) cases; Aligned, NoOverread, AllReturned, Terminates hold' % (proto, len(cases)))
-    mk = (lambda pl: wire.frame(pl)) if proto == 2 else (lambda pl: wire.frame1(pl[0], pl[1:]))
+    mk = (lambda pl: wire.frame(pl)) if proto == 2 else (lambda pl: wire.frame1(pl[0], pl[1:], padbyte=len(pl)))
     for c in cases:
         ck.evaluated()
         payloads = [bytes([20 + i]) + bytes((j * 13 + n) & 0xff for j in range(n - 1)) for i, n in enumerate(c['pkts'])]
@@ -415,7 +415,7 @@ def scalar_and_message_legs(ck, rnd, tier):
         if SSH1.crc32(data) != wire.ssh1_crc32(data):
             ck.violation('ssh1-crc32', 'CRC-32 of %d bytes differs from the SSH-1 CRC computed with zlib' % len(data), {'data': data.hex()})
             continue
-        pkt = wire.frame1(2, body)
+        pkt = wire.frame1(2, body, padbyte=rnd.choice([0, 1, 0x5a, 0xfe]))       # zero and non-zero padding: the CRC covers the padding too
         r, _ = _sock(pkt)
         try:
             t, pl = r.read_packet(1)
